@@ -11,6 +11,13 @@ among unmasked cells with the right column value, every unmasked cell in exactly
 cells in none, shoelace area (exterior minus holes) = cell count, rings closed, exteriors anticlockwise,
 holes clockwise, vertices on cell corners, axis-parallel edges; region ids are first-pixel ranks;
 a transform maps every vertex of the untransformed result.
+Wrapper glue (round 3): every raster dtype the public `polygonize()` accepts with values at the edges of the dtype
+(value identity: the column value of a polygon must be *the raster's* value, compared as exact Python scalars);
+transform classes (identity, translations, scalings / flips, quarter turns, shear, general affine, geotransforms)
+handed over as list / tuple / ndarray of several dtypes, every vertex compared with the exact rational image of the
+untransformed vertex; mask / column_name / return_type at their edges.  The facts the model needs about the wrapper
+(casts, dropped transforms, the nx = 1 workaround) are read off the source by harness/facts_polygonize.py and are
+proof obligations of Props/C15.lean (section "wrapper glue").
 """
 import os
 from concurrent.futures import ThreadPoolExecutor
@@ -544,11 +551,242 @@ def gen_wild(rng):
                 layout=G.pick_layout(rng, None, cheap=True), mlayout=G.pick_layout(rng, None, cheap=True))
 
 
+# ---------------------------------------------------------------- wrapper glue: dtype classes, transform classes
+WRAPPER_DTYPES = ["int8", "int16", "int32", "int64", "uint8", "uint16", "uint32", "uint64", "float32", "float64", "bool"]
+
+
+def _separated(vals):
+    """greedy subset in which two different values are never `_is_close` (|a - b| <= 1e-8 + 1e-5 |ref|) -- by a wide
+    margin, so that for float rasters 'close' and 'equal' coincide and the oracle (equality) is in the property's domain"""
+    out = []
+    for v in vals:
+        if all(v == w or (abs(v - w) > 1e-3 * max(abs(v), abs(w)) and abs(v - w) > 1e-4) for w in out):
+            out.append(v)
+    return out
+
+
+def dtype_pool(dtype):
+    """values at the edges of a raster dtype (exact Python scalars)"""
+    if dtype == "bool":
+        return [False, True]
+    dt = np.dtype(dtype)
+    if dt.kind in "iu":
+        info = np.iinfo(dt)
+        cand = [info.min, info.max, info.min + 1, info.max - 1, 0, 1, 2, -1, info.max // 2 + 7, info.min // 2 - 3, 100000, 100001,
+                2 ** 24 + 1, 2 ** 31 - 1, 2 ** 31, 2 ** 32 - 1, 2 ** 53, 2 ** 53 + 1, -(2 ** 53) - 1, 2 ** 62 + 1, 2 ** 63 - 1,
+                2 ** 63, 2 ** 63 + 1, 2 ** 64 - 2]
+        seen = []
+        for v in cand:
+            if info.min <= v <= info.max and v not in seen:
+                seen.append(v)
+        return seen            # integers are compared exactly by `_is_close`: neighbours are different values
+    fi = np.finfo(dt)
+    big = float(fi.max)
+    cand = [0.0, -0.0, big, -big, 1.0, -1.0, 0.5, 2.0 ** -10, 2.0 ** 24 + 2, 2.0 ** 31, 2.0 ** 53 + 2, -(2.0 ** 53) - 2, 2.0 ** 63,
+            1.5 * 2.0 ** 64, 1e30, -1e30, 1e300, -1e300, 65537.25, 0.1, 3.0, 2.0]
+    vals = []
+    for v in cand:
+        w = float(dt.type(v)) if abs(v) <= big else None
+        if w is not None and np.isfinite(w) and not any(w == u and np.signbit(w) == np.signbit(u) for u in vals):
+            vals.append(w)
+    return vals
+
+
+def edge_tags(a):
+    """evidence histogram: which edges of the dtype the raster touches"""
+    vals = set(a.ravel().tolist())
+    tags = []
+    if a.dtype.kind in "iu":
+        info = np.iinfo(a.dtype)
+        if info.min in vals and info.min < 0:
+            tags.append("edge:int-min")
+        if info.max in vals:
+            tags.append("edge:int-max")
+        if any(abs(v) > 2 ** 53 for v in vals):
+            tags.append("edge:>2^53")
+        if any(v >= 2 ** 63 for v in vals):
+            tags.append("edge:>=2^63")
+        big = sorted(v for v in vals if abs(v) >= 10 ** 5)
+        if any(b - a_ <= 1e-5 * abs(a_) for a_, b in zip(big, big[1:])):
+            tags.append("edge:relatively-close-ints")
+    elif a.dtype.kind == "f":
+        if np.any(np.signbit(a) & (a == 0)):
+            tags.append("edge:-0.0")
+        if any(abs(v) == float(np.finfo(a.dtype).max) for v in vals):
+            tags.append("edge:float-max")
+        if any(abs(v) > 2 ** 53 for v in vals):
+            tags.append("edge:>2^53")
+    return tags
+
+
+def gen_dtype_case(rng):
+    """a small raster of one of the wrapper's dtypes over 2-4 values drawn from the edges of that dtype (plus small
+    ones), every cell an exact Python scalar"""
+    dtype = rng.choice(WRAPPER_DTYPES + ["uint64", "int64", "float64", "float32"])
+    pool = dtype_pool(dtype)
+    near = False
+    if dtype == "bool":
+        alphabet = [False, True]
+    elif np.dtype(dtype).kind in "iu" and rng.random() < 0.35:
+        # large ids whose neighbours differ by 1: v, v+1, v+2, ... with |v| log-uniform from 1e5 (below that from half the
+        # range) up to the edge of the dtype -- different integers that are *relatively* close (|a - b| <= 1e-5 |a|)
+        info = np.iinfo(np.dtype(dtype))
+        n = rng.choice([2, 3, 3, 4])
+        lo_mag = 10 ** 5 if info.max > 10 ** 6 else info.max // 2
+        mag = int(round(10 ** rng.uniform(np.log10(lo_mag), np.log10(info.max))))
+        mag = rng.choice([mag, mag, 10 ** rng.randrange(5, 10), info.max]) if info.max > 10 ** 6 else mag
+        base = min(mag, info.max - n + 1)
+        if info.min < 0 and rng.random() < 0.4:
+            base = max(-mag, info.min)
+        alphabet = [base + k for k in range(n)]
+        near = True
+    else:
+        picks = rng.sample(pool, min(len(pool), rng.choice([2, 3, 3, 4])))
+        if rng.random() < 0.3:
+            picks += [type(pool[0])(v) for v in (1, 2)]
+        alphabet = picks if np.dtype(dtype).kind in "iu" else _separated(picks)
+    mode = rng.choice(["rand", "rand", "blob", "line", "col", "one", "struct"])
+    h, w = rng.randrange(1, 6), rng.randrange(1, 7)
+    if mode == "line":
+        h, w = 1, rng.randrange(1, 12)
+    elif mode == "col":
+        h, w = rng.randrange(1, 12), 1
+    elif mode == "one":
+        h = w = 1
+    if mode == "struct" and h >= 2 and w >= 2:
+        _, idx = G.structured(rng, h, w)
+        idx = np.asarray(idx, dtype=np.int64) % len(alphabet)
+    else:
+        idx = G.random_raster(rng, h, w, len(alphabet), 0.0, flip_p=0.35 if mode == "blob" else None).astype(np.int64) % len(alphabet)
+    h, w = idx.shape
+    grid = [[vtok(alphabet[k]) for k in row] for row in idx.tolist()]
+    # masks: None / bool / nothing selected / a non-bool dtype (one extra numba specialisation each: only for int64)
+    mk = rng.choice(["none", "none", "rand", "zero", "all"])
+    mdtype = "bool"
+    if mk != "none" and dtype == "int64" and rng.random() < 0.5:
+        mdtype = rng.choice(["int8", "float32"])
+    if dtype == "int32":            # (int32, bool mask) and (uint8, uint8 mask) are compiled for the random stream anyway
+        mk = "all" if mk == "none" else mk
+    elif dtype == "uint8":
+        mk, mdtype = ("all" if mk == "none" else mk), "uint8"
+    elif mk != "none" and dtype not in ("int64", "uint64", "float64", "float32"):
+        mk = "none"
+    mask = None
+    if mk == "rand":
+        mask = [[0 if rng.random() < 0.3 else 1 for _ in range(w)] for _ in range(h)]
+    elif mk == "zero":
+        mask = [[0] * w for _ in range(h)]
+    elif mk == "all":
+        mask = [[1] * w for _ in range(h)]
+    kwargs = None
+    if rng.random() < 0.3:
+        kwargs = rng.choice([dict(column_name="value"), dict(column_name=""), dict(return_type="numpy"),
+                             dict(column_name="DN", return_type="numpy")])
+    return dict(kind="grid", exact=True, conn=rng.choice([4, 8]), dtype=dtype, grid=grid, mask=mask, mdtype=mdtype, transform=None,
+                tag="dtype-edge:" + mode + (":near-ints" if near else ""), masktag="mask:" + mk, layout=G.pick_layout(rng, None, cheap=True),
+                mlayout=G.pick_layout(rng, None, cheap=True) if mask is not None else "C", kwargs=kwargs)
+
+
+def _dy(rng, lo=-64, hi=64, bits=4):
+    """a dyadic rational k / 2**s as int (when whole) or float"""
+    sft = rng.randrange(0, bits + 1)
+    v = Fraction(rng.randrange(lo * 2 ** sft, hi * 2 ** sft + 1), 2 ** sft)
+    return int(v) if v.denominator == 1 else float(v)
+
+
+def gen_transform(rng):
+    """(class, six coefficients) -- ints stay ints, so that a list / tuple / integer ndarray can carry them"""
+    cls = rng.choice(["identity", "translate-int", "translate-int", "translate-frac", "translate-frac", "scale", "flip", "rot90",
+                      "shear", "affine-dyadic", "geo-dyadic", "geo", "affine", "degenerate"])
+    off = lambda: rng.choice([0, 1, -1, 3, 10, -7, 250, 1000, -4096, 500000, 4100000])     # noqa: E731
+    if cls == "identity":
+        t = [1, 0, 0, 0, 1, 0]
+    elif cls == "translate-int":
+        t = [1, 0, off(), 0, 1, off()]
+        if t[2] == 0 and t[5] == 0:
+            t[rng.choice([2, 5])] = rng.choice([1, -3, 20])
+    elif cls == "translate-frac":
+        t = [1, 0, rng.choice([0.5, -0.25, 3.5, 0.125, 1000.75, 0]), 0, 1, rng.choice([0.5, -2.5, 7.25, 0, 0.0625])]
+        if t[2] == 0 and t[5] == 0:
+            t[2] = 0.5
+    elif cls == "scale":
+        t = [rng.choice([2, 3, 0.5, 0.25, 30, 10, 1]), 0, off(), 0, rng.choice([2, 5, 0.5, 0.125, 30, 1]), off()]
+    elif cls == "flip":
+        t = [rng.choice([1, -1, -2, 30, -0.5]), 0, off(), 0, rng.choice([-1, -30, -0.5, -2]), off()]
+    elif cls == "rot90":
+        t = list(rng.choice([[0, -1, 0, 1, 0, 0], [0, 1, 0, -1, 0, 0], [-1, 0, 0, 0, -1, 0], [0, 1, 0, 1, 0, 0], [0, -1, 0, -1, 0, 0]]))
+        t[2], t[5] = off(), off()
+    elif cls == "shear":
+        k = rng.choice([1, -1, 2, 0.5, -0.25])
+        t = [1, k, off(), 0, 1, off()] if rng.random() < 0.5 else [1, 0, off(), k, 1, off()]
+    elif cls == "affine-dyadic":
+        t = [_dy(rng) for _ in range(6)]
+    elif cls == "geo-dyadic":
+        t = list(rng.choice([[30, 0, 500000, 0, -30, 4100000], [0.5, 0, -180, 0, -0.5, 90], [0.25, 0, -180, 0, -0.25, 90],
+                             [10, 0, 399960, 0, -10, 5300040], [0.0078125, 0, 12.5, 0, -0.0078125, 47.75]]))
+    elif cls == "geo":
+        t = list(rng.choice([[0.1, 0, 3.3, 0, -0.1, 7.7], [0.0002777777777777778, 0, -122.5, 0, -0.0002777777777777778, 45.3],
+                             [0.008333333333333333, 0, -180, 0, -0.008333333333333333, 83.99958],
+                             [28.5, 1.3, 445678.9, -1.3, -28.5, 4123456.7]]))
+    elif cls == "affine":
+        t = [rng.uniform(-3, 3) for _ in range(6)]
+    else:
+        t = [0, 0, off(), 0, 0, off()]
+    return cls, t
+
+
+def transform_forms(t):
+    """the ways this coefficient list can be handed over without changing a coefficient"""
+    forms = ["list", "tuple", "nd:float64", "nd:float64", "nd:float64:strided"]
+    whole = all(isinstance(v, int) or float(v).is_integer() for v in t)
+    if whole and all(abs(v) < 2 ** 31 for v in t):
+        forms += ["nd:int64", "nd:int32"]
+    if all(float(np.float32(v)) == float(v) for v in t):
+        forms.append("nd:float32")
+    return forms
+
+
+def gen_transform_case(rng, k):
+    """a raster of the structured / random generator (int64 or float64, mask none or bool -- the numba
+    specialisations that exist anyway) with a transform of one of the classes, in one of the forms"""
+    c = gen_case(rng, big=(k % 4 == 0))
+    if k % 5 == 0:
+        # uniform rasters and single rows / columns: the shapes where glue code likes to take short cuts
+        h, w = rng.choice([(1, 1), (1, rng.randrange(2, 9)), (rng.randrange(2, 9), 1), (rng.randrange(2, 6), rng.randrange(2, 6))])
+        v = rng.choice(["0", "1", "7"])
+        c["grid"] = [[v] * w for _ in range(h)]
+        c["tag"] = "uniform"
+        if c["mask"] is not None:
+            c["mask"] = [[1] * w for _ in range(h)] if rng.random() < 0.5 else None
+            c["masktag"] = "mask:all" if c["mask"] is not None else "mask:none"
+    c["dtype"] = rng.choice(["int64", "int64", "float64"])
+    c["mdtype"] = "bool"
+    cls, t = gen_transform(rng)
+    c["transform"] = t
+    forms = transform_forms(t)
+    if c["dtype"] == "float64" or c["mask"] is not None:
+        # only (int64 raster, no mask) is compiled for every transform dtype; elsewhere the wrapper must end up with a
+        # float64 array: an ndarray, or a list / tuple holding at least one float
+        forms = ["list", "tuple", "nd:float64"]
+        c["transform"] = t = [float(v) if k == 0 else v for k, v in enumerate(t)]
+    c["tform"] = rng.choice(forms)
+    c["tclass"] = cls
+    if c["layout"] == "readonly":
+        c["layout"], c["mlayout"] = "readonlyF", "F"
+    if rng.random() < 0.2:
+        c["kwargs"] = rng.choice([dict(column_name="value"), dict(return_type="numpy")])
+    return c
+
+
 def materialise(c):
     if c["kind"] == "enum":
         values, mask = enum_arrays(c["rows"], c["cols"], c["alphabet"], c["t"])
         return values, mask
-    a = np.array([[untok(t) for t in row] for row in c["grid"]], dtype=np.float64).astype(c["dtype"])
+    if c.get("exact"):
+        # every cell an exact Python scalar (ints beyond 2**53, -0.0): no detour through float64
+        a = np.array([[pyval(t, c["dtype"]) for t in row] for row in c["grid"]], dtype=c["dtype"])
+    else:
+        a = np.array([[untok(t) for t in row] for row in c["grid"]], dtype=np.float64).astype(c["dtype"])
     mask = None
     if c.get("mask") is not None:
         mask = np.array(c["mask"], dtype=np.float64).astype(c.get("mdtype", "bool"))
@@ -583,13 +821,34 @@ def as_dataarray(a, layout):
     return xr.DataArray(G.lay(a, layout))
 
 
-def call_public(a, mask, conn, transform, layout="C", mlayout="C"):
+def make_transform(transform, tform):
+    """the transform object handed to polygonize: `tform` None = float64 ndarray (the historical default of this
+    harness), 'list' / 'tuple' = the Python numbers as they are (ints stay ints), 'nd:<dtype>' = ndarray of that dtype,
+    'nd:float64:strided' = a non-contiguous float64 view"""
+    if transform is None:
+        return None
+    if tform is None:
+        return np.array(transform, dtype=np.float64)
+    if tform == "list":
+        return list(transform)
+    if tform == "tuple":
+        return tuple(transform)
+    if tform == "nd:float64:strided":
+        big = np.full(2 * len(transform) + 1, 77.0)
+        v = big[1::2][:len(transform)]
+        v[...] = transform
+        return v
+    return np.array(transform, dtype=tform.split(":")[1])
+
+
+def call_public(a, mask, conn, transform, layout="C", mlayout="C", tform=None, kwargs=None):
     from xrspatial.experimental.polygonize import polygonize
     ra = as_dataarray(a, layout)
     rm = None if mask is None else as_dataarray(mask, mlayout)
+    tobj = make_transform(transform, tform)
+    tcopy = None if tobj is None else (np.array(tobj, copy=True) if isinstance(tobj, np.ndarray) else type(tobj)(tobj))
     try:
-        col, polys = polygonize(ra, mask=rm, connectivity=conn,
-                                transform=None if transform is None else np.array(transform, dtype=np.float64))
+        col, polys = polygonize(ra, mask=rm, connectivity=conn, transform=tobj, **(kwargs or {}))
     except ValueError as ex:
         return "ValueError", str(ex), None
     except Exception as ex:  # noqa: BLE001 -- any other exception on a valid raster is a finding
@@ -598,11 +857,15 @@ def call_public(a, mask, conn, transform, layout="C", mlayout="C"):
         return "ok", (col, polys), "the input raster was modified"
     if rm is not None and not np.array_equal(np.asarray(rm.data), mask, equal_nan=(mask.dtype.kind == "f")):
         return "ok", (col, polys), "the mask was modified"
+    if tobj is not None and not (type(tobj) is type(tcopy) and np.array_equal(np.asarray(tobj), np.asarray(tcopy))):
+        return "ok", (col, polys), "the transform argument was modified"
     return "ok", (col, polys), None
 
 
 def model_request(a, mask, conn, transform, cmd="polygonize"):
-    parts = [f"{cmd} conn={conn} dtype={'int' if a.dtype.kind in 'iu' else 'float'} g={grid_tok(a.astype(np.float64))}"]
+    h_, w_ = a.shape
+    g = (f"{h_}x{w_}:" + ",".join(tok(v) for v in a.ravel().tolist())) if a.dtype.kind in "iub" else grid_tok(a.astype(np.float64))
+    parts = [f"{cmd} conn={conn} dtype={'int' if a.dtype.kind in 'iu' else 'float'} g={g}"]
     if mask is not None:
         parts.append(f"mask={grid_tok((np.asarray(mask) != 0).astype(np.float64))}")
     if transform is not None:
@@ -618,12 +881,105 @@ def check_case(r, c, requests, pending, model=True):
         _check_case(r, c, requests, pending, model)
 
 
+def pyval(t, dtype):
+    """token of an exact raster -> Python scalar"""
+    if dtype == "bool":
+        return t not in ("0", "False")
+    if np.dtype(dtype).kind in "iu":
+        return int(t)
+    return -0.0 if t == "-0" else untok(t)
+
+
+def vtok(v):
+    """exact token of a Python scalar (keeps the sign of zero)"""
+    if isinstance(v, float) and v == 0 and np.signbit(v):
+        return "-0"
+    return tok(v)
+
+
+def rank_encode(a, col):
+    """Value identity in the raster's own dtype: the distinct raster values -- exact Python scalars (`tolist()`), so
+    2**64 - 1 stays 2**64 - 1 and an int is never confused with a rounded float -- are numbered, and every column
+    value is looked up among them by Python equality (numeric: 5 == 5.0, -0.0 == 0.0; exact: 2**53 + 1 != 2.0**53).
+    Returns (ranks of the cells, ranks of the column; -1 = not a value of the raster)."""
+    flat = a.ravel().tolist()
+    num = {}
+    for v in flat:
+        num.setdefault(v, len(num))
+    ranks = np.array([num[v] for v in flat], dtype=np.float64).reshape(a.shape)
+    colr = []
+    for v in col:
+        v = v.item() if isinstance(v, np.generic) else v
+        colr.append(num.get(v, -1) if v == v else -1)
+    return ranks, colr
+
+
+def transform_mismatch(tr, polys0, polys):
+    """oracle of the transform clause: every returned vertex is the affine image of the corresponding vertex of the
+    call without a transform.  The image is computed in exact rationals; when the float64 evaluation
+    a*x + b*y + c is exact in every step (dyadic coefficients of moderate size) the returned coordinate must equal it
+    exactly, otherwise within 16 ulp of the sum of the magnitudes of the three terms.
+    Returns (text or None, every vertex was exact)."""
+    if len(polys0) != len(polys) or any(len(x) != len(y) for x, y in zip(polys0, polys)):
+        return "the transform changed the number of polygons / rings", False
+    ft = [Fraction(v) for v in tr]
+    fl = [float(v) for v in tr]
+    all_exact = True
+    memo = {}
+    for rings0, rings1 in zip(polys0, polys):
+        for r0, r1 in zip(rings0, rings1):
+            if len(r0) != len(r1):
+                return "the transform changed the number of vertices", False
+            for p0, p1 in zip(np.asarray(r0).tolist(), np.asarray(r1).tolist()):
+                key = (p0[0], p0[1])
+                if key not in memo:
+                    x, y = Fraction(p0[0]), Fraction(p0[1])
+                    exp, exact, mag = [], True, []
+                    for k in (0, 3):
+                        e = ft[k] * x + ft[k + 1] * y + ft[k + 2]
+                        t1, t2 = fl[k] * p0[0], fl[k + 1] * p0[1]
+                        ok = (Fraction(t1) == ft[k] * x and Fraction(t2) == ft[k + 1] * y
+                              and Fraction(t1 + t2) == ft[k] * x + ft[k + 1] * y and Fraction(t1 + t2 + fl[k + 2]) == e)
+                        exp.append(e)
+                        exact = exact and ok
+                        mag.append(abs(ft[k] * x) + abs(ft[k + 1] * y) + abs(ft[k + 2]))
+                    memo[key] = (exp, exact, mag)
+                exp, exact, mag = memo[key]
+                all_exact = all_exact and exact
+                for got, e, m in zip(p1, exp, mag):
+                    if got != got or got in (float("inf"), float("-inf")):
+                        bad = True
+                    elif exact:
+                        bad = Fraction(got) != e
+                    else:
+                        bad = abs(Fraction(got) - e) > m * Fraction(16, 2 ** 53)
+                    if bad:
+                        return (f"vertex {tuple(p0)} came back as {tuple(p1)}, the transform gives "
+                                f"({float(exp[0])!r}, {float(exp[1])!r})"), all_exact
+    return None, all_exact
+
+
+def internal_regions(c, a, mask, ranks, maskb, conn):
+    """region array of `_calculate_regions` (the oracle checks that its ids are the first-pixel ranks of the
+    components).  For the exact dtype-edge rasters it is called on the int64 *ranks* of the values with a bool mask --
+    the same regions inside the property's domain (close = equal), without one more numba specialisation of the
+    labelling pass per raster / mask dtype; the public call has of course seen the real dtypes."""
+    from xrspatial.experimental.polygonize import _calculate_regions
+    ny, nx = a.shape
+    if c.get("exact"):
+        if ranks is None:
+            ranks, _ = rank_encode(a, [])
+        return _calculate_regions(ranks.astype(np.int64).ravel(), None if mask is None else maskb.ravel(), conn == 8, nx, ny)
+    return _calculate_regions(a.ravel(), None if mask is None else np.asarray(mask).ravel(), conn == 8, nx, ny)
+
+
 def _check_case(r, c, requests, pending, model=True):
     a, mask = materialise(c)
     conn, tr = c["conn"], c.get("transform")
     layout, mlayout = c.get("layout", "C"), c.get("mlayout", "C")
+    tform, kwargs = c.get("tform"), c.get("kwargs")
     with guard(r, c):
-        status, out, note = call_public(a, mask, conn, tr, layout, mlayout)
+        status, out, note = call_public(a, mask, conn, tr, layout, mlayout, tform, kwargs)
     if conn not in (4, 8) or (tr is not None and len(tr) != 6):
         if status != "ValueError":
             r.fail("polygonize:validation", f"connectivity={conn} transform={tr} accepted", c)
@@ -638,53 +994,45 @@ def _check_case(r, c, requests, pending, model=True):
         return
     col, polys = out
     maskb = np.ones(a.shape, dtype=bool) if mask is None else (np.asarray(mask) != 0)
+    exact_tr = True
     if not c.get("wild"):
         # untransformed result for the oracle; the transform is checked vertex by vertex
         if tr is None:
             col0, polys0 = col, polys
         else:
             with guard(r, c):
-                st0, out0, _ = call_public(a, mask, conn, None, layout, mlayout)
+                st0, out0, _ = call_public(a, mask, conn, None, layout, mlayout, None, kwargs)
             if st0 != "ok":
                 r.fail("polygonize:raises", f"polygonize raised {st0}: {out0}", c)
                 return
             col0, polys0 = out0
-            bad = None
-            if len(polys0) != len(polys) or any(len(x) != len(y) for x, y in zip(polys0, polys)):
-                bad = "the transform changed the number of polygons / rings"
-            else:
-                for rings0, rings1 in zip(polys0, polys):
-                    for r0, r1 in zip(rings0, rings1):
-                        if len(r0) != len(r1):
-                            bad = "the transform changed the number of vertices"
-                            break
-                        for p0, p1 in zip(r0, r1):
-                            ex_ = tr[0] * p0[0] + tr[1] * p0[1] + tr[2]
-                            ey_ = tr[3] * p0[0] + tr[4] * p0[1] + tr[5]
-                            if abs(ex_ - p1[0]) > 1e-9 * max(1.0, abs(ex_)) or abs(ey_ - p1[1]) > 1e-9 * max(1.0, abs(ey_)):
-                                bad = f"vertex {tuple(p0)} -> {tuple(p1)}, the transform gives ({ex_}, {ey_})"
-                                break
+            bad, exact_tr = transform_mismatch(tr, polys0, polys)
+            if not bad and [vtok(v) for v in col] != [vtok(v) for v in col0]:
+                bad = "the transform changed the column values"
             if bad:
-                r.fail("polygonize:transform", bad, c)
-                return
-        from xrspatial.experimental.polygonize import _calculate_regions
-        ny, nx = a.shape
-        regs = _calculate_regions(a.ravel(), None if mask is None else np.asarray(mask).ravel(), conn == 8, nx, ny)
+                r.fail("polygonize:transform", bad + f" (transform={tr} given as {tform or 'float64 ndarray'})", c)
+                # no return: the untransformed result still goes through the oracle, the transformed one to the model
+        ranks, colr = rank_encode(a, col0)
+        regs = internal_regions(c, a, mask, ranks, maskb, conn)
         try:
-            enc = np.array(encode(regs, col0, polys0), dtype=np.int64)
-            code = _oracle(enc, a.astype(np.float64), maskb, conn == 8)
+            enc = np.array(encode(regs, colr, polys0), dtype=np.int64)
+            code = _oracle(enc, ranks, maskb, conn == 8)
         except (ValueError, OverflowError):
             code = 15
         if code:
-            r.fail("polygonize:lossless", CODES[int(code)] + f" (connectivity={conn}, dtype={a.dtype}, shape={a.shape}, "
+            what = CODES[int(code)]
+            if -1 in colr:
+                k = colr.index(-1)
+                what += f"; column[{k}] = {col0[k]!r} is not a value of the raster"
+            r.fail("polygonize:lossless", what + f" (connectivity={conn}, dtype={a.dtype}, shape={a.shape}, "
                    f"raster layout={layout}, mask layout={mlayout if mask is not None else None})", c)
             # no return: the model comparison below records the disagreement as well
-    if model and a.size <= (MODEL_MAX_CELLS_LOOKUP if c.get("tag", "").startswith("lookup:") else 200) and not c.get("wildtransform"):
+    if model and a.size <= (MODEL_MAX_CELLS_LOOKUP if c.get("tag", "").startswith("lookup:") else 200) \
+            and not c.get("wildtransform") and exact_tr:
         requests.append(model_request(a, mask, conn, tr))
         pending.append((c, render(col, polys)))
-        from xrspatial.experimental.polygonize import _calculate_regions
         ny, nx = a.shape
-        regs = _calculate_regions(a.ravel(), None if mask is None else np.asarray(mask).ravel(), conn == 8, nx, ny)
+        regs = internal_regions(c, a, mask, None, maskb, conn)
         requests.append(model_request(a, mask, conn, None, cmd="polyregions"))
         pending.append((c, f"{ny}x{nx}:" + ",".join(str(int(v)) for v in regs)))
 
@@ -717,6 +1065,17 @@ def run(r, scale=1):
               "with 60-1000 provisional regions whose merges sit at and around the last slot of the merge table "
               "(ids 63/64/65, 127/128, 255/256.. for table sizes max(64,nx,ny)*2^k), first merges far beyond twice the table, "
               "sparse and dense merges, wide and tall, compared with the model (which carries the table size) and the oracle; "
+              "dtype-edge: rasters of every dtype the wrapper accepts (int8..uint64, float32/64, bool) over 2-4 values at the "
+              "edges of the dtype (min, max, neighbours, beyond 2^24 / 2^31 / 2^53 / 2^63, +-float max, -0.0; float values "
+              "pairwise far from close; 35 % of the integer rasters over consecutive large ids v, v+1, v+2.. with |v| log-uniform "
+              "from 1e5 to the dtype's edge -- different integers that are relatively close; float values "
+              "pairwise far from close), every cell an exact Python scalar, mask none / bool / int8 / float32 / nothing "
+              "selected (masks only for int64 / uint64 / float rasters), 1xN / Nx1 / 1x1, column_name / return_type given: the column value of every polygon must be the raster's "
+              "value at every cell it covers (exact scalar comparison), and the model is compared on the exact values; "
+              "transform-classes: identity, integer / fractional translations, scalings, flips, quarter turns, shear, dyadic and "
+              "general affine, geotransforms, degenerate, handed over as list / tuple / ndarray (float64, float32, int64, int32, "
+              "strided), also on uniform rasters and single rows / columns: every vertex must be the exact rational image of the "
+              "untransformed vertex (exactly when the float64 evaluation is exact, else within 16 ulp of the term magnitudes); "
               "wild (model only): "
               "NaN, +-inf, nearly equal floats, ints >= 1e5; non-trivial = at least two cells and two symbols")
     requests, pending = [], []
@@ -758,6 +1117,25 @@ def run(r, scale=1):
                tags=[c["tag"], f"dtype:{c['dtype']}", f"conn:{c['conn']}", c["masktag"], f"layout:{c['layout']}"] + profile_tags(pr))
         check_case(r, c, requests, pending)
     mark("lookup")
+    # --- wrapper glue: every raster dtype at the edges of its range (value identity of the column)
+    for k in range({"quick": 700, "thorough": 6000}[r.tier] * scale):
+        c = gen_dtype_case(r.rng)
+        a, mask = materialise(c)
+        r.case(c, desc=c if k < 2 else None, nontrivial=a.size >= 2 and len(set(a.ravel().tolist())) >= 2,
+               tags=[c["tag"], f"dtype:{c['dtype']}", f"conn:{c['conn']}", c["masktag"], f"layout:{c['layout']}",
+                     "1xN" if a.shape[0] == 1 else ("Nx1" if a.shape[1] == 1 else "2d")] + edge_tags(a)
+               + ([f"mask-dtype:{c['mdtype']}"] if mask is not None else []) + (["kwargs"] if c.get("kwargs") else []))
+        check_case(r, c, requests, pending)
+    mark("dtype-edge")
+    # --- wrapper glue: transform classes in every form the wrapper accepts
+    for k in range({"quick": 800, "thorough": 6000}[r.tier] * scale):
+        c = gen_transform_case(r.rng, k)
+        a, mask = materialise(c)
+        r.case(c, desc=c if k < 2 else None, nontrivial=True,
+               tags=["transform-class:" + c["tclass"], "transform-form:" + c["tform"], c["tag"], c["masktag"], f"dtype:{c['dtype']}",
+                     "1xN" if a.shape[0] == 1 else ("Nx1" if a.shape[1] == 1 else "2d")])
+        check_case(r, c, requests, pending)
+    mark("transform-classes")
     for k in range({"quick": 40, "thorough": 300}[r.tier] * scale):
         c = gen_case(r.rng)
         c["transform"] = r.rng.choice(WILD_TRANSFORMS)
@@ -785,6 +1163,28 @@ def run(r, scale=1):
             r.fail("polygonize:validation", f"raster of shape {bad.shape} accepted", dict(kind="bad-shape", shape=list(bad.shape)))
         except ValueError:
             pass
+    # return_type: an unknown name is rejected; 'numpy' is the default; the optional back ends (awkward / geopandas /
+    # spatialpandas) are compared with the numpy result when they can be imported (none of them is available offline)
+    small = xr.DataArray(np.array([[1, 2], [2, 2]], dtype=np.int64))
+    ref = polygonize(small)
+    r.case(dict(kind="return-type"), nontrivial=False, tags=["return-type"])
+    try:
+        polygonize(small, return_type="shapefile")
+        r.fail("polygonize:validation", "return_type='shapefile' accepted", dict(kind="bad-shape", shape=[2, 2]))
+    except ValueError:
+        pass
+    for rt, modname in (("awkward", "awkward"), ("geopandas", "geopandas"), ("spatialpandas", "spatialpandas")):
+        try:
+            __import__(modname)
+        except Exception:  # noqa: BLE001 -- not installed: nothing to compare
+            r.tag("return-type:" + rt + ":unavailable")
+            continue
+        out = polygonize(small, return_type=rt, column_name="value")
+        got = list(out[0]) if rt == "awkward" else list(out["value"])
+        r.tag("return-type:" + rt)
+        if [int(v) for v in got] != [int(v) for v in ref[0]]:
+            r.fail("polygonize:lossless", f"return_type={rt!r}: column {got} differs from the numpy result {ref[0]}",
+                   dict(kind="bad-shape", shape=[2, 2]))
     try:
         polygonize(xr.DataArray(np.zeros((2, 2))), mask=xr.DataArray(np.ones((2, 3), dtype=bool)))
         r.fail("polygonize:validation", "mask of another shape accepted", dict(kind="bad-shape", shape=[2, 3]))
@@ -809,7 +1209,8 @@ def search(r):
     if r.failures:
         return
     for k in range({"quick": 4000, "thorough": 25000}[r.tier]):
-        c = gen_lookup(r.rng) if k % 8 == 7 else gen_case(r.rng, big=True)
+        c = (gen_lookup(r.rng) if k % 8 == 7 else gen_dtype_case(r.rng) if k % 8 in (1, 4) else
+             gen_transform_case(r.rng, k) if k % 8 in (2, 6) else gen_case(r.rng, big=True))
         r.case(c, nontrivial=True, tags=["search"])
         check_case(r, c, requests, pending, model=False)
         if len(r.failures) >= 3:
